@@ -32,7 +32,7 @@ CONSTANTS
     Ids,            \* task ids (naturals; the btree breaks ties by id)
     Workers,        \* worker indices
     WorkerMaps,     \* set of functions [Ids -> Workers]: id -> worker (xxhash(id) % len(workchans) in the code)
-    CfgSpace,       \* set of [k : {"every","cron"}, e : 1..3, o : 0..1]
+    CfgSpace,       \* set of [k : {"every","cron"}, e : 1..3, o : -1..1]
     MaxClock,       \* bound on the clock
     MaxApi,         \* bound on API calls
     MaxLast,        \* Schedule's lastScheduled ranges over 0..MaxLast
